@@ -10,6 +10,12 @@ mod chrony_poller;
 mod shm_writer;
 pub mod signal;
 pub mod thread_manager;
+#[cfg(clock_bound_verif)]
+pub mod verif_hooks;
+#[cfg(clock_bound_verif)]
+pub use chrony_poller::verif as verif_chrony_poller;
+#[cfg(clock_bound_verif)]
+pub use shm_writer::verif as verif_shm_writer;
 
 use chrony_candm::reply::Tracking;
 
